@@ -3,12 +3,13 @@ use lender::*;
 use std::io::{BufReader, Cursor, Write};
 use sux::utils::*;
 
-fn text(nlines: usize, crlf: bool, final_nl: bool, seed: u64) -> (Vec<u8>, Vec<String>) {
+fn text(nlines: usize, crlf: bool, final_nl: bool, seed: u64) -> (Vec<u8>, Vec<String>) { text_long(nlines, crlf, final_nl, seed, false) }
+fn text_long(nlines: usize, crlf: bool, final_nl: bool, seed: u64, long: bool) -> (Vec<u8>, Vec<String>) {
     let mut rng = Rng(seed);
     let mut lines = Vec::new();
     let mut bytes = Vec::new();
     for i in 0..nlines {
-        let len = rng.below(12) as usize;
+        let len = if long && rng.below(5) == 0 { rng.below(30_000) as usize } else { rng.below(12) as usize };
         let s: String = (0..len).map(|_| (b'a' + rng.below(26) as u8) as char).collect();
         bytes.extend_from_slice(s.as_bytes());
         if i + 1 < nlines || final_nl { if crlf { bytes.push(b'\r'); } bytes.push(b'\n'); }
@@ -28,10 +29,12 @@ where L: for<'a> Lending<'a, Lend = std::io::Result<&'a str>> + Lender {
     Ok(out)
 }
 
-/// input: [kind (0 plain, 1 gzip, 2 zstd), nlines, consume_first, rewinds, flags (1 crlf, 2 final newline), seed]
+/// input: [kind (0 plain, 1 gzip, 2 zstd), nlines, consume_first, rewinds, flags (1 crlf, 2 final newline, 4 some long lines, bits 3.. capacity of the
+/// BufReader under the plain lender, 0 = default: a small buffer puts every terminator on a refill boundary for some line), seed]
 fn case(inp: &[u64]) -> Result<(), String> {
     let (kind, nlines, consume, rewinds, flags, seed) = (inp[0] % 3, inp[1] as usize, inp[2] as usize, inp[3] as usize, inp[4], inp[5]);
-    let (bytes, lines) = text(nlines, flags & 1 != 0, flags & 2 != 0, seed);
+    let (bytes, lines) = text_long(nlines, flags & 1 != 0, flags & 2 != 0, seed, flags & 4 != 0);
+    let cap = (flags >> 3) as usize;
     macro_rules! go { ($l:expr) => {{
         let mut l = $l;
         let first = drain(&mut l, consume)?;
@@ -44,11 +47,58 @@ fn case(inp: &[u64]) -> Result<(), String> {
         Ok(())
     }} }
     match kind {
+        0 if cap > 0 => go!(LineLender::new(BufReader::with_capacity(cap, Cursor::new(bytes)))),
         0 => go!(LineLender::new(BufReader::new(Cursor::new(bytes)))),
         1 => { let mut e = flate2::write::GzEncoder::new(Vec::new(), flate2::Compression::default()); e.write_all(&bytes).unwrap(); let z = e.finish().unwrap();
                go!(GzipLineLender::new(Cursor::new(z)).map_err(|e| e.to_string())?) }
         _ => { let z = zstd::encode_all(&bytes[..], 3).map_err(|e| e.to_string())?;
                go!(ZstdLineLender::new(Cursor::new(z)).map_err(|e| e.to_string())?) }
+    }
+}
+
+fn drain_res<L>(l: &mut L, k: usize) -> Vec<String>
+where L: for<'a> Lending<'a, Lend = std::io::Result<&'a str>> + Lender {
+    let mut out = Vec::new();
+    while out.len() < k {
+        match l.next() { None => break, Some(Ok(s)) => out.push(format!("ok:{}", s)), Some(Err(e)) => { out.push(format!("err:{:?}", e.kind())); break; } }
+    }
+    out
+}
+
+/// self-consistency of passes, inputs that make a pass END IN AN ERROR included (the items of a pass are io::Results): whatever a fresh
+/// lender yields in a complete pass (up to and including the first error), a lender rewound after k items yields again, twice.
+/// input: [kind (0 plain, 1 gzip, 2 zstd, 3 zstd stream declaring a 2^28 window, beyond the decoder's default limit), nlines, consume_first,
+///         damage (0 none, 1 an invalid UTF-8 byte in the text, 2 compressed stream truncated), seed]
+fn case_selfcons(inp: &[u64]) -> Result<(), String> {
+    let (kind, nlines, consume, damage, seed) = (inp[0] % 4, inp[1] as usize, inp[2] as usize, inp[3] % 3, inp[4]);
+    let (mut bytes, _lines) = text(nlines, seed & 1 != 0, seed & 2 != 0, seed);
+    let mut rng = Rng(seed ^ 0xABCD);
+    if damage == 1 && !bytes.is_empty() { let p = rng.below(bytes.len() as u64) as usize; bytes.insert(p, 0xFF); }
+    let mut stream: Vec<u8> = match kind {
+        0 => bytes.clone(),
+        1 => { let mut e = flate2::write::GzEncoder::new(Vec::new(), flate2::Compression::default()); e.write_all(&bytes).unwrap(); e.finish().unwrap() }
+        2 => zstd::encode_all(&bytes[..], 3).map_err(|e| e.to_string())?,
+        _ => { let mut e = zstd::stream::write::Encoder::new(Vec::new(), 3).map_err(|e| e.to_string())?; e.window_log(28).map_err(|e| e.to_string())?;
+               e.write_all(&bytes).unwrap(); e.finish().map_err(|e| e.to_string())? }
+    };
+    if damage == 2 && kind != 0 && stream.len() > 4 { let keep = stream.len() - 1 - rng.below((stream.len() / 2) as u64) as usize; stream.truncate(keep); }
+    macro_rules! go { ($mk:expr) => {{
+        let mut fresh = $mk;
+        let reference = drain_res(&mut fresh, 10_000_000);
+        let mut l = $mk;
+        let first = drain_res(&mut l, consume);
+        if first[..] != reference[..first.len().min(reference.len())] { return Err(format!("two fresh lenders disagree: {:?}", &first[..first.len().min(3)])); }
+        for r in 0..2 {
+            l = match l.rewind() { Ok(l) => l, Err(e) => return Err(format!("rewind {} error: {}", r + 1, e)) };
+            let all = drain_res(&mut l, 10_000_000);
+            if all != reference { return Err(format!("pass after rewind {} (after {} items) yielded {} items ending in {:?}; a fresh pass yields {} items ending in {:?}", r + 1, first.len(), all.len(), all.last(), reference.len(), reference.last())); }
+        }
+        Ok(())
+    }} }
+    match kind {
+        0 => go!(LineLender::new(BufReader::with_capacity(1 + (seed >> 8) as usize % 64, Cursor::new(stream.clone())))),
+        1 => go!(GzipLineLender::new(Cursor::new(stream.clone())).map_err(|e| e.to_string())?),
+        _ => go!(ZstdLineLender::new(Cursor::new(stream.clone())).map_err(|e| e.to_string())?),
     }
 }
 
@@ -78,12 +128,25 @@ pub fn run(case_name: &str, ctx: &mut Ctx, one: Option<&str>, rng: &mut Rng, bud
             let s = fmt_list(&v); ctx.trial(&s, false, || case_take(&v)); }
         return;
     }
+    if case_name == "lenders_selfcons" {
+        if let Some(s) = one { let inp = parse_list(s); ctx.trial(s, false, || case_selfcons(&inp)); return; }
+        for kind in 0..4u64 { for nlines in [0u64, 1, 3, 30, 3000] { for consume in [0u64, 1, 2, 1000] { for damage in 0..3u64 { for seed in [4u64, 5, 6, 7] {
+            let v = vec![kind, nlines, consume, damage, seed + (nlines << 8)]; let s = fmt_list(&v); ctx.trial(&s, false, || case_selfcons(&v));
+        } } } } }
+        for _ in 0..budget.min(400) { let v = vec![rng.below(4), rng.below(300), rng.below(320), rng.below(3), rng.next()]; let s = fmt_list(&v); ctx.trial(&s, false, || case_selfcons(&v)); }
+        return;
+    }
     if let Some(s) = one { let inp = parse_list(s); ctx.trial(s, false, || case(&inp)); return; }
     for kind in 0..3u64 { for nlines in [0u64, 1, 2, 5, 40] { for consume in [0u64, 1, 3, 100] { for flags in 0..4u64 {
         let v = vec![kind, nlines, consume, 2, flags, 7 + nlines]; let s = fmt_list(&v); ctx.trial(&s, false, || case(&v));
     } } } }
     // long inputs (several compressed blocks / buffer refills), rewound in the middle of a pass
     for kind in 0..3u64 { for consume in [7u64, 150_000] { let v = vec![kind, 260_000, consume, 2, 2, 99 + kind]; let s = fmt_list(&v); ctx.trial(&s, false, || case(&v)); } }
+    for kind in 0..3u64 { for flags in [3u64, 1, 7] { let v = vec![kind, if flags & 4 != 0 { 3000 } else { 260_000 }, 1000, 1, flags, 5 + kind + flags]; let s = fmt_list(&v); ctx.trial(&s, false, || case(&v)); } }
+    // small buffers under the plain lender: every alignment of CR / LF with a refill boundary
+    for cap in 1..=9u64 { for flags in 0..4u64 { for nlines in [1u64, 2, 7, 40] { let v = vec![0, nlines, 3, 2, flags | (cap << 3), 31 + cap + nlines]; let s = fmt_list(&v); ctx.trial(&s, false, || case(&v)); } } }
+    for _ in 0..budget.min(300) { let v = vec![0, rng.below(60), rng.below(70), 1 + rng.below(2), rng.below(8) | ((1 + rng.below(40)) << 3), rng.next()];
+        let s = fmt_list(&v); ctx.trial(&s, false, || case(&v)); }
     for _ in 0..budget.min(300) { let v = vec![rng.below(3), rng.below(200), rng.below(220), 1 + rng.below(3), rng.below(4), rng.next()];
         let s = fmt_list(&v); ctx.trial(&s, false, || case(&v)); }
 }
